@@ -79,11 +79,23 @@ def structural_difference(got, want) -> bool:
         return False
     STRUCT = ("fold", "map", "filter", "flatmap", "scan_ys")
     from ..terms import key as _key, walk as _walk
+    ITER_NAMES = {"functools.reduce", "itertools.accumulate", "builtins.enumerate", "builtins.zip", "builtins.range",
+                  "itertools.pairwise", "itertools.chain", "itertools.product", "itertools.islice", "itertools.starmap",
+                  "itertools.zip_longest", "itertools.count"}
     for _, x, y in pairs:
+        if isinstance(x, str) and isinstance(y, str) and x != y and (x in ITER_NAMES or y in ITER_NAMES):
+            return True      # the differing callee IS the iteration combinator
         if not (isinstance(x, tuple) and isinstance(y, tuple) and x and y and isinstance(x[0], str) and isinstance(y[0], str)):
             continue
         # an un-modelled iteration combinator (functools.reduce, itertools.accumulate) is an iteration shape too
-        OPAQUE_ITER = (("ext", "functools.reduce"), ("ext", "itertools.accumulate"))
+        # ... and so is a different way of producing the iteration domain (enumerate(pairwise(edges)) where the
+        # reference counts range(n)): which elements are visited is not a local, nameable difference
+        OPAQUE_ITER = (("ext", "functools.reduce"), ("ext", "itertools.accumulate"), ("ext", "builtins.enumerate"),
+                       ("ext", "builtins.zip"), ("ext", "builtins.range"), ("ext", "itertools.pairwise"),
+                       ("ext", "itertools.chain"), ("ext", "itertools.product"), ("ext", "itertools.islice"),
+                       ("ext", "itertools.starmap"), ("ext", "itertools.zip_longest"), ("ext", "itertools.count"))
+        if x[0] == "ext" and y[0] == "ext" and x != y and (x in OPAQUE_ITER or y in OPAQUE_ITER):
+            return True      # the differing callee IS the iteration combinator
         xs = x[0] in STRUCT or (x[0] == "call" and x[1] in OPAQUE_ITER)
         ys = y[0] in STRUCT or (y[0] == "call" and y[1] in OPAQUE_ITER)
         if x[0] == y[0] and not ((xs or ys) and x[0] == "call" and x[1] != y[1]):
